@@ -51,7 +51,18 @@ class Submodule(Module):
         if not self.ancestor_name:
             return
         if self.ancestor_name in obj_tree:
-            self.ancestor_obj = obj_tree[self.ancestor_name][0]
+            ancestor = obj_tree[self.ancestor_name][0]
+            # A submodule cannot be its own ancestor (directly or through other
+            # submodules): get_ancestors follows ancestor_obj recursively
+            obj = ancestor
+            visited = []
+            while obj is not None and not any(obj is v for v in visited):
+                if obj is self:
+                    ancestor = None
+                    break
+                visited.append(obj)
+                obj = getattr(obj, "ancestor_obj", None)
+            self.ancestor_obj = ancestor
 
     def require_inherit(self):
         return True
